@@ -1,9 +1,16 @@
+"""C09 — Transitions follow the published rules (reference-model agreement).  Driver over the per-environment sidecar contracts (contracts/<env>.py): keeps the clauses named C09.*"""
 from jxv import envdriver
+
+LEVEL = "proof"
+CONFIG_BOUND = "configurations listed in contracts/envs.py or in the contract module itself (small and adversarial: non-square, minimum sizes, >1 agents); values unbounded"
+NOT_VERIFIED = ["environments / clauses for which no C09 clause is present in the contract module (the evidence lists, per task, which clauses were discharged)",
+                "configurations outside the list"]
+ASSUMPTIONS = ["sampler contracts of jax.random (DESIGN.md section 5)", "induction over the episode from the per-step obligations (reset establishes Inv, step preserves it)"]
 
 
 def tasks(tier):
     return envdriver.tasks("C09", tier)
 
 
-LEVEL_TEXT = "wip"
-LEVEL_NOTE = "wip"
+LEVEL_TEXT = ('Proof: per environment a pure specification of the rules (spec_step, written independently of the implementation, per-cell case analysis); for every listed configuration, ALL invariant states and in-spec actions (sampler outcomes shared as fresh symbols), successor state, reward and termination flag of the real step equal the specification field by field; key function-level contracts (2048 row merge for all rows, Tetris drop / line clearing, Minesweeper counts, FlatPack rotations) are proved on the functions themselves.')
+LEVEL_NOTE = ('spec functions live in contracts/<env>.py; per-configuration; loops unwound completely with unwinding assertions; floats as reals.')
